@@ -320,3 +320,39 @@ func connectionHandlersBeforeFirstEvent(c *Ctx, rule string) {
 	c.Ob(rule, "sio.Namespace.doConnect/handlers-before-first-event", replies[0].Pos(), ok,
 		"the connection handlers (where the application registers its event handlers) are not run before the CONNECT reply is queued: "+detail+" — the client's first events (its offline buffer is flushed when the reply arrives) are dispatched with the handler set of that moment and dropped silently when the registration has not happened yet")
 }
+
+// F70 (C17-D8): a request that reaches a live session's polling transport is answered explicitly on every path.
+// polling.ServerTransport.ServeHTTP switches over the method with cases GET and POST and no default: PUT, DELETE,
+// PATCH, OPTIONS … on a live sid write nothing, which net/http turns into `200 OK` with an empty body — not the
+// protocol's error reply.
+func transportAnswersEveryRequest(c *Ctx, rule string) {
+	p := c.P
+	fn := p.Fn("polling", "ServerTransport.ServeHTTP")
+	if len(fn.Params) < 2 {
+		c.Undecided("%s: polling.ServerTransport.ServeHTTP has no ResponseWriter parameter", rule)
+		return
+	}
+	w := fn.Params[1]
+	answers := func(in ssa.Instruction) bool {
+		ci, ok := in.(ssa.CallInstruction)
+		if !ok {
+			return false
+		}
+		cc := ci.Common()
+		if cc.IsInvoke() && cc.Value == w {
+			return true // w.WriteHeader / w.Write / …
+		}
+		for _, a := range cc.Args {
+			if a == w {
+				return true // handed to a handler or to a reply helper
+			}
+			if mi, isMI := a.(*ssa.MakeInterface); isMI && mi.X == w {
+				return true
+			}
+		}
+		return false
+	}
+	skip, trail := CanReachExitAvoiding(fn, nil, answers)
+	c.Ob(rule, "polling.ServerTransport.ServeHTTP/every-path-answers", fn.Pos(), !skip,
+		"a path through the polling transport's ServeHTTP returns without touching the ResponseWriter (a method other than GET/POST on a live session): the request is answered `200 OK` with an empty body instead of the protocol's error: "+trailString(p, trail))
+}
